@@ -123,7 +123,7 @@ def run(ctx):
                 mbit = dc.METHODS[method]
                 sh = {}
                 if shape == "throw":
-                    sh[(code, mbit)] = ("throw", 3)
+                    sh[(code, mbit)] = ("throw", rng.choice([3, 7, 8]))
                 elif shape == "exit":
                     sh[(code, mbit)] = ("exit",)
                 elif shape == "abort":
@@ -131,7 +131,10 @@ def run(ctx):
                 elif shape is not None:
                     sh[(code, mbit)] = ("ret", shape)
                 if rng.random() < 0.3:      # handler for another method only
-                    sh[(code, 4 if mbit != 4 else 2)] = ("ret", ("str", "o"))
+                    # (GET/HEAD are a pair in routes, not in status pages)
+                    sh[(code, rng.choice([b for b in (1, 2, 2, 4, 8, 64)
+                                          if b != mbit]))] = \
+                        ("ret", ("str", "o"))
                 if rng.random() < 0.2:
                     sh[(500, mbit)] = rng.choice(
                         [("ret", ("str", "u500")), ("throw", 1),
@@ -148,7 +151,8 @@ def run(ctx):
                 leaf=("endpoint", ("abortresp", desc))))
     # exceptions x handler registrations in every order and mask
     handlers = [("ret", s) for s in SHAPES[:4] + SHAPES[8:9]] + \
-        [("throw", 3), ("abort", 404), ("abort", 418), ("exit",)]
+        [("throw", 3), ("throw", 7), ("abort", 404), ("abort", 418),
+         ("exit",)]
     orders = list(itertools.permutations([1, 2, 3, 10], 2)) + \
         list(itertools.permutations([1, 2, 3], 3)) + [(1,), (2,), (10,), ()]
     for thrown in (1, 2, 3):
@@ -158,7 +162,8 @@ def run(ctx):
                 mbit = dc.METHODS[method]
                 eh = []
                 for cls in order:
-                    reg = rng.choice([mbit, mbit, 4 if mbit != 4 else 2])
+                    reg = rng.choice([mbit, mbit] + [
+                        b for b in (1, 2, 4) if b != mbit])
                     eh.append((cls, {reg: rng.choice(handlers)}))
                 # a class registered again for a further method keeps the
                 # position of its first registration
